@@ -38,6 +38,14 @@ class _Return(Exception):
         self.v = v
 
 
+class _Break(Exception):
+    pass
+
+
+class _Continue(Exception):
+    pass
+
+
 class Infeasible(Exception):
     """Path abandoned because a branch condition is syntactically false."""
 
@@ -684,10 +692,26 @@ class Interp:
                         c = dyn_range_constraint(ctx, ctx.memo[key])
                         ctx.assume(c)
                     return ctx.memo[key]
-                if name in ci.properties:
-                    return self.call_function(ctx, ci.properties[name], [v], {})
-                if name in ci.methods:
-                    return VFunc(ci.methods[name], bound=v)
+                # properties and methods: the class, then its bases (depth-first, left to right - single inheritance and mixins)
+                seen: List[str] = []
+                stack = [v.cls]
+                complete = True
+                while stack:
+                    cn = stack.pop(0)
+                    if cn in seen or cn == "object":
+                        continue
+                    seen.append(cn)
+                    cinfo = self.world.classes.get(cn)
+                    if cinfo is None:
+                        complete = False  # a base class this world does not know: it may define anything
+                        continue
+                    if name in cinfo.properties:
+                        return self.call_function(ctx, cinfo.properties[name], [v], {})
+                    if name in cinfo.methods:
+                        return VFunc(cinfo.methods[name], bound=v)
+                    stack = list(cinfo.bases) + stack
+                if not complete:
+                    raise Unsupported(f"attribute {name} of {v.cls}: a base class is not modelled")
                 raise PyRaise("AttributeError", [VStr(smt.sstr(f"'{v.cls}' object has no attribute '{name}'"))])
             if v.cls is None:
                 # opaque object: attribute may or may not exist
@@ -1046,6 +1070,18 @@ class Interp:
             if isinstance(n, VStr) and smt.is_str_lit(n.t):
                 return self.hasattr(ctx, args[0], smt.sexpr_to_py(n.t))
             raise Unsupported("hasattr with non-constant name")
+        if name == "getattr" and len(args) in (2, 3) and not kwargs:
+            n = force(ctx, args[1])
+            if isinstance(n, VStr) and smt.is_str_lit(n.t):
+                if len(args) == 2:
+                    return self.getattr(ctx, args[0], smt.sexpr_to_py(n.t))
+                try:
+                    return self.getattr(ctx, args[0], smt.sexpr_to_py(n.t))
+                except PyRaise as pr:
+                    if pr.exc == "AttributeError":
+                        return args[2]
+                    raise
+            raise Unsupported("getattr with a non-constant name")
         if name == "str":
             return VStr(self.format_value(ctx, args[0]))
         if name == "repr":
@@ -1263,6 +1299,10 @@ class Interp:
             return
         if isinstance(s, ast.Pass):
             return
+        if isinstance(s, ast.Break):
+            raise _Break()
+        if isinstance(s, ast.Continue):
+            raise _Continue()
         if isinstance(s, ast.Global):
             env.setdefault("__globals__", VList([]))
             for n in s.names:
@@ -1278,10 +1318,18 @@ class Interp:
             if isinstance(it, VConstDict):
                 it = VList([VStr(smt.sstr(k)) for k, _ in it.entries])  # a dict iterates its keys, in insertion order
             if isinstance(it, (VList, VTuple)):
-                for item in it.items:
+                broke = False
+                for item in list(it.items):
                     self.assign(ctx, s.target, item, env, fi)
-                    self.exec_block(ctx, s.body, env, fi)
-                self.exec_block(ctx, s.orelse, env, fi)
+                    try:
+                        self.exec_block(ctx, s.body, env, fi)
+                    except _Continue:
+                        continue
+                    except _Break:
+                        broke = True
+                        break
+                if not broke:
+                    self.exec_block(ctx, s.orelse, env, fi)
                 return
             if isinstance(it, VSymList) and _is_search_loop(s):
                 # `for x in xs: if P(x): return/raise ...`  ==  the any()-abstraction with the body as predicate
@@ -1328,7 +1376,7 @@ class Interp:
                 self.exec_block(ctx, h.body, env, fi)
             else:
                 self.exec_block(ctx, s.orelse, env, fi)
-        except (PyRaise, _Return) as sig:
+        except (PyRaise, _Return, _Break, _Continue) as sig:
             pending = sig
         if s.finalbody:
             self.exec_block(ctx, s.finalbody, env, fi)
